@@ -35,7 +35,6 @@ import (
 	"io/fs"
 	"os"
 	"path/filepath"
-	"slices"
 	"strings"
 	"syscall"
 	"time"
@@ -544,10 +543,12 @@ func (p *Path) MustReadFilteredFileAsLines() []string {
 	txt := string(data)
 	txt = strings.ReplaceAll(txt, "\r\n", "\n")
 	txt = util.Filter(txt)
-	res := strings.Split(txt, "\n")
-	if slices.Contains(res, "") {
-		idx := slices.Index(res, "")
-		res = slices.Delete(res, idx, idx+1)
+	res := []string{}
+	for _, line := range strings.Split(txt, "\n") {
+		// The blanks around an entry are not part of it
+		if line = strings.TrimSpace(line); line != "" {
+			res = append(res, line)
+		}
 	}
 	return res
 }
